@@ -34,8 +34,8 @@ type Item struct {
 //	        table of contents of a document produced elsewhere), gentoc / autotoc (Max 0 = nil config, else
 //	        TOCConfig{Title, MaxLevel: Max}; autotoc Times 1..2), updtoc (Times 1..3), headings (ListHeadings +
 //	        GetHeadingCount)
-//	both  : reopen (ToBytes -> OpenFromMemory; Fresh = the process-wide registries are reset first, as when the
-//	        file is opened by another process)
+//	both  : reopen (ToBytes -> OpenFromMemory; Fresh dates from the time the registries were process-wide and
+//	        asked for their reset - they are per-document now and the flag changes nothing)
 type Op struct {
 	K       string `json:"k"`
 	Text    string `json:"text,omitempty"`
